@@ -222,6 +222,12 @@ QUICK_SYNC = {   # sync queries per property in the quick tier (10-90 s each wit
     "s_evict_lru_exact": {"C04", "C12", "C10"},
     "s_evict_lru_within": {"C03", "C04"},
     "s_purge_nothing": {"C03", "C05", "C06"},
+    "l_evict_lru_both_n2": {"C12", "C04", "C10"},
+    "l_evict_lru_both_n2_ttl": {"C11", "C08"},
+    "l_purge_two_ttl_one_expired": {"C05", "C10", "C03"},
+    "l_purge_two_tti_one_expired": {"C06", "C03"},
+    "l_purge_two_watermark_one_hidden": {"C07", "C10"},
+    "l_purge_two_both_hidden": {"C07", "C11"},
     # un-synced bursts (stale queued operations) that are cheap enough for every change
     "l_burst_ins1_inv0_cap1_hot": {"C08", "C11", "C10"},
     "l_burst_ins1_room": {"C03", "C10"},
@@ -265,6 +271,10 @@ def _sync():
             props |= {"C10", "C03", "C01", "C07", "C04", "C11", "C09"}
         elif fn == "l_purge_fresh_front":
             props |= {"C07", "C01", "C03", "C05"}
+        elif fn == "l_evict_lru_both":
+            props |= {"C12", "C04", "C10", "C11"}
+        elif fn == "l_purge_two":
+            props |= {"C10", "C03", "C05", "C06", "C07", "C11"}
         elif fn == "l_evict_lru_exact":
             props |= {"C12", "C04", "C10", "C11"}; prim |= {"C12", "C04"}
         elif fn == "l_purge_one":
@@ -312,6 +322,7 @@ for _n in (1, 2):
     add("sync_base_cache.rs", f"s_admit_lemma_n{_n}", {"C13", "C12", "C08"}, "quick", 25, "sync Inner::admit for ALL weights / candidate weights / sketch contents (decision only; read-only)",
         f"n={_n} admitted residents, u32 weights symbolic", required=("rejected on popularity", "rejected: no covering prefix", "admitted over all residents"))
 add("sync_base_cache.rs", "l_sync_round_plain", {"C10", "C03", "C09", "C12", "C01", "C06", "C08"}, "quick", 60, "one whole Inner::sync with a queued Hit and a queued insert that fits", "n=1 + 1 pending, unbounded, symbolic read timestamp", quick={"C10", "C03", "C09", "C12"})
+add("sync_base_cache.rs", "l_apply_writes_update_then_remove_q2", {"C07", "C10", "C11", "C09", "C08"}, "thorough", 200, "the real apply_writes loop over TWO queued ops (update of a resident, then its removal)", "n=1, queue [Upsert, Remove]", quick={"C09"})
 add("sync_base_cache.rs", "l_sync_round_plain_late", {"C05", "C06", "C10", "C03", "C09", "C12", "C01", "C08"}, "quick", 60, "one whole Inner::sync run LATER than the queued insert it applies (clock advanced): timestamps still those of the insert", "n=1 + 1 pending, unbounded, symbolic read timestamp", quick={"C05", "C06"})
 add("sync_base_cache.rs", "l_evict_lru_terminates_on_unevictable_node", {"C09", "C08"}, "quick", 60, "evict_lru_entries over capacity with only an invalidated (unevictable) node left: bounded by its batch size", "n=1 whose map entry is gone, batch size 2", unwind_tag="C09")
 for _nm in ("hit", "expired", "invalidated", "miss"):
@@ -321,6 +332,9 @@ add("sync_base_cache.rs", "s_eviction_counters_never_overflow", {"C10", "C08"}, 
 add("sync_cache.rs", "invalidate_of_a_pending_insert_queues_its_removal", {"C07", "C11", "C10"}, "quick", 60, "Cache::invalidate of a key whose Upsert is still queued", "n=1 admitted + 1 pending; model queue 4", quick={"C07", "C11", "C10"})
 add("sync_cache.rs", "contains_key_and_iter_are_not_maintenance_points", {"C15", "C16", "C14", "C09"}, "quick", 60, "public sync contains_key / iter with writes queued and the housekeeper due: no maintenance, nothing recorded; get tries exactly once", "n=1 + 1 pending; try_sync stubbed by a counting twin", quick={"C15", "C16"})
 add("sync_cache.rs", "sync_initial_capacity_is_inert", {"C17", "C13"}, "quick", 100, "sync builder: initial_capacity leaves sketch state, policy and counters of a fresh cache unchanged", "all capacities, initial capacities < 2^40", quick={"C17"})
+for _nm in ("hot", "hot_ttl", "cold"):
+    add("sync_base_cache.rs", f"l_upsert_admission_two_victims_{_nm}", {"C12", "C13", "C04", "C10", "C11", "C08"}, "quick" if _nm == "hot" else "thorough", 100, "handle_upsert admission that needs TWO victims (newcomer weight 2 over two unit residents), concrete sketch",
+        "n=2 unit residents, capacity 2, newcomer weight 2", quick={"C12", "C13"})
 for _nm in ("keeps_newer_value", "then_rest_quiescent"):
     add("sync_base_cache.rs", f"l_upsert_stale_reject_{_nm}", {"C03", "C01", "C10", "C11", "C08"}, "quick", 60, "F7 scenario step-wise: a stale queued insert of a key is rejected while the key's newer value (own op still queued) is in the map",
         "n=1 (invalidated, Remove pending) + 2 queued inserts of one key, capacity 1; concrete sketch", quick={"C03", "C10", "C01"})
